@@ -30,7 +30,7 @@ Definition ftype_eqb (a b : ftype) : bool :=
 Definition is_ref (t : ftype) : bool := match t with TEnt _ _ | TArr _ _ => true | _ => false end.
 
 (* RESERVED_SHORT_NAMES *)
-Definition reserved : N := 33.
+Definition reserved : N := 32.
 
 Record field := mkF { f_name : N; f_short : N; f_type : ftype; f_default : option N;
                       f_nullable : bool; f_depr : bool }.
